@@ -372,7 +372,9 @@ impl TokenParseState {
                 remove_tabs,
                 operator_token_result,
             } => {
-                if self.is_newline() {
+                // N.B. The tag can also be missing because the construct the redirection is
+                // nested in ended right after the operator (e.g., `$( << )`).
+                if self.is_newline() || self.current_token().trim_ascii_start().is_empty() {
                     return Err(TokenizerError::MissingHereTag(
                         self.current_token().to_owned(),
                     ));
